@@ -218,8 +218,22 @@ func init() {
 			Dir   string `json:"dir"`
 			Keep  string `json:"keep"`
 			Prev  string `json:"prev"`
+			Reps  int    `json:"reps"` // library path only: this many further extractions in the SAME process, one record each
 		}
 		loadCases(args, &c)
+		defer func() {
+			for k := 0; k < c.Reps && c.CLI == ""; k++ {
+				rec := map[string]interface{}{"event": "extract", "depth": c.Depth, "batch": c.Batch, "procs": runtime.GOMAXPROCS(0), "pid": os.Getpid(), "whole": "", "defs": map[string]string{}, "err": "", "via": "lib-repeat"}
+				if src, err := prover.ExtractLean(c.Depth, c.Batch); err != nil {
+					rec["err"] = firstLine(err.Error())
+				} else {
+					rec["whole"] = sha([]byte(src))
+					rec["defs"] = splitDefs(src)
+				}
+				b, _ := json.Marshal(rec)
+				fmt.Println(string(b))
+			}
+		}()
 		rec := map[string]interface{}{"event": "extract", "depth": c.Depth, "batch": c.Batch, "procs": runtime.GOMAXPROCS(0), "pid": os.Getpid(), "whole": "", "defs": map[string]string{}, "err": "", "via": "lib"}
 		var src string
 		var err error
